@@ -1361,6 +1361,12 @@ class Kconfig(object):
                 # present_in_current_sdkconfig: In order to detect config options which are set multiple times
                 #           in a single file, we must reset the present_in_current_sdkconfig flag for all symbols
                 #           and choices every time we are loading the file.
+                # Stored defaults that an earlier load injected belong to the configuration that is being replaced.
+                for sym in self.unique_defined_syms:
+                    sym._forget_injected_default()
+                for choice in self.unique_choices:
+                    choice._forget_injected_default()
+
                 for sym in self.unique_defined_syms:
                     sym._was_set = False
                     if is_main_sdkconfig:
@@ -4424,6 +4430,7 @@ class Symbol:
         "_is_deprecated",
         "_user_source",
         "_default_value_injected",
+        "_kconfig_defaults",
         "_defaults_resolved",
         "_old_val",
         "choice",
@@ -4611,6 +4618,13 @@ class Symbol:
             sdkconfig default value and Kconfig default value are different.
         """
         self._default_value_injected = False
+
+        """
+        _kconfig_defaults:
+            The 'defaults' list as it was before a stored default was injected, None otherwise.
+            Put back when the configuration is replaced by another one (see _forget_injected_default()).
+        """
+        self._kconfig_defaults = None
 
         """
         _defaults_resolved:
@@ -4805,6 +4819,8 @@ class Symbol:
         dependency = self.kconfig.y
         for node in self.nodes:
             dependency = self.kconfig._make_and(dependency, node.dep)
+        if self._kconfig_defaults is None:
+            self._kconfig_defaults = self.defaults
         self.defaults = [(sym_for_val, dependency)]
 
         # Invalidate recursively to propagate the change to dependent symbols
@@ -4815,6 +4831,17 @@ class Symbol:
         self._default_value_injected = True
 
         return True
+
+    def _forget_injected_default(self) -> None:
+        """
+        Put the defaults from Kconfig back. A stored default is injected for the configuration it was loaded with;
+        when that configuration is replaced by another one, the new file decides (as it does in a freshly started tool).
+        """
+        if self._kconfig_defaults is not None:
+            self.defaults = self._kconfig_defaults
+            self._kconfig_defaults = None
+            self._default_value_injected = False
+            self._rec_invalidate()
 
     def resolve_defaults(self):
         """
@@ -6012,6 +6039,7 @@ class Choice:
         "_present_in_current_sdkconfig",
         "_invalidating",
         "defaults",
+        "_kconfig_defaults",
         "direct_dep",
         "_defaults_resolved",
         "is_constant",
@@ -6077,6 +6105,12 @@ class Choice:
             'default' conditions.
         """
         self.defaults = []
+
+        """
+        _kconfig_defaults:
+            The 'defaults' list as it was before a stored default selection was injected, None otherwise.
+        """
+        self._kconfig_defaults = None
 
         """
         _defaults_resolved:
@@ -6292,12 +6326,23 @@ class Choice:
         dependency = self.kconfig.y
         for node in self.nodes:
             dependency = self.kconfig._make_and(dependency, node.dep)
+        if self._kconfig_defaults is None:
+            self._kconfig_defaults = self.defaults
         self.defaults = [(sym, dependency)]
         # Invalidate recursively to propagate the change to dependent symbols
         self._rec_invalidate()
 
         # Restore the original value of self._parsing_kconfigs
         self.kconfig._parsing_kconfigs = parsing_kconfigs
+
+    def _forget_injected_default(self) -> None:
+        """
+        Put the default selections from Kconfig back (see Symbol._forget_injected_default()).
+        """
+        if self._kconfig_defaults is not None:
+            self.defaults = self._kconfig_defaults
+            self._kconfig_defaults = None
+            self._rec_invalidate()
 
     def _handle_interactive_choice(self) -> Tuple[Dict[str, Tuple[str, str]], Dict[str, str]]:
         print(f"Choice {self.name} has following possible selections:")
